@@ -1,0 +1,45 @@
+//go:build verif
+
+package kgo
+
+// Verification contracts (comments only), read by /verif/govc. Compiled only with -tags verif; no code.
+
+// ---- C22: framing and correlation of responses (the sequential kernel) ----
+// Every response is read as: 4 size bytes -> parseReadSize -> make([]byte, size) -> io.ReadFull -> correlation
+// check in readResponse. For every byte stream: no panic, no allocation beyond the configured read limit, and a
+// payload is handed to the waiting request only if its first four bytes are that request's correlation ID.
+
+// parseReadSize: for every four bytes, either an error (and size 0), or exactly the big-endian value of the bytes,
+// which is then non-negative and within the configured limit.
+//@ func (cxn *brokerCxn) parseReadSize(sizeBuf []byte) (size int32, err error)
+//@   prop C22
+//@   mode bv
+//@   nopanic
+//@   requires len(sizeBuf) >= 4
+//@   ensures [accepted-size-is-the-wire-value] err == nil ==> (uint32(size) == be32at(sizeBuf, 0) && size >= 0 && size <= cxn.b.cl.cfg.maxBrokerReadBytes)
+//@   ensures [rejected-size-is-zero] err != nil ==> size == 0
+//@   ensures [negative-rejected] int32(be32at(sizeBuf, 0)) < 0 ==> err != nil
+//@   ensures [oversized-rejected] int32(be32at(sizeBuf, 0)) > cxn.b.cl.cfg.maxBrokerReadBytes ==> err != nil
+
+// the reading goroutine of readConn: parseReadSize always gets the 4-byte size buffer; the payload buffer is
+// allocated only after parseReadSize accepted the size (so it is within the limit), and is cut to the bytes
+// actually read.
+//@ func (cxn *brokerCxn) readConn$2()
+//@   prop C22
+//@   nopanic
+//@   site call parseReadSize#0 assert [four-size-bytes] len(arg1) == 4
+
+// kmsg.SkipTags drives the reader it is given and nothing else (it is verified with the kmsg decoders under C16).
+//@ extern func (kmsg) SkipTags(b kmsg.TagReader)
+//@   modifies object(b)
+
+// readResponse: a payload is returned only when its first four bytes are the correlation ID of the request being
+// answered; a short payload or a mismatch is an error; with a flexible header the tag section is skipped by the
+// verified kbin/kmsg readers.
+//@ func (cxn *brokerCxn) readResponse(ctx context.Context, key int16, version int16, corrID int32, flexibleHeader bool, timeout time.Duration, bytesWritten int, writeWait time.Duration, timeToWrite time.Duration, readEnqueue time.Time) (res []byte, err error)
+//@   prop C22
+//@   mode bv
+//@   nopanic
+//@   ensures [only-the-matching-response] (err == nil && !flexibleHeader) ==> (len($readConn0_1) >= 4 && int32(be32at($readConn0_1, 0)) == corrID && $readConn0_4 == nil)
+//@   ensures [payload-follows-the-id] (err == nil && !flexibleHeader) ==> (len(res) == len($readConn0_1) - 4 && sameobject(res, $readConn0_1))
+//@   ensures [flexible-matching] (err == nil && flexibleHeader) ==> (len($readConn0_1) >= 4 && int32(be32at($readConn0_1, 0)) == corrID && $readConn0_4 == nil)
